@@ -16,6 +16,10 @@ CHECKS = {
             'Bounded symbolic verification: the real LegacyBuilder.fly (context, starting mass, climb/cruise/descent), Container (growable buffers, make_point, append) and Trajectory (set_phase, append, interpolate_time) run on a symbolic mission against a nondeterministic performance model (any answers within the documented contract, or an out-of-envelope refusal at any call); per explored path z3 decides for all inputs: mass minus fuel constant, masses/time/distance monotone, first point carries starting mass and fuel, altitude schedule (start/end levels, monotone per phase, constant cruise, never above cruise level/ceiling), phase hand-over, every position is the ground track\'s answer for exactly the recorded distance, finiteness of the phase arithmetic, resampling at own time points and at a symbolic intermediate time; rejected missions raise documented errors carrying the original reason. Buffer capacities are set small so growth boundaries fall inside the bound both aligned and mis-aligned with phase ends. Counterexamples replay with real numpy/pyproj and then through the public API on the shipped model.',
             '2-3 (thorough up to 4) points per phase; quick tier uses a recording stand-in for GroundTrack (the real class is C15, and runs here in the thorough tier); products of two symbols abstracted by sign axioms and refined on sat; no weather, no mass iteration',
             'proxy symbolic execution of the real builder/container code + z3 (LRA abstraction refined in QF_NRA)', 'DESIGN.md#c02'),
+    'C03': ('other',
+            'Round trip through the real store write/read code (_create_dimensions, _create_nc_file, _write_data, _write_to_nc_var, _read_from_nc_var, _load_trajectory, create_associated, convert_in) over a netCDF4 model for a harness-registered field set covering all six dimension combinations and float64/int32/int64/str types: species membership is a solver-chosen bit per species and per species-indexed field over a universe of 3 (thorough 4) species including the first, a middle and the last of the enumeration (so gaps and fields with different subsets are covered exhaustively), together with unset optional fields, thrust-mode values given in either order and a second trajectory with fewer species; in one file, base plus associated file, and an associated file produced by mapping over the store; after reopening every field reads back equal by an independent comparator (same species keys, none lost, none invented, same values, None stays None). Counterexamples replay on the real netCDF4.',
+            'the HDF5 encoding itself (VL arrays, string fill values, dtype promotion) is outside: netCDF4 is modelled; values are concrete tags; exhaustive over the stated universe, not beyond',
+            'proxy execution with solver-chosen membership/presence/layout over a netCDF4 model (exhaustive enumeration of the stated space)', 'DESIGN.md#c03'),
     'C06': ('other',
             'Bounded symbolic verification plus a floating-point kernel: one evaluate() of the real LegacyPerformanceModel (evaluate, _evaluate_checked, evaluate_impl, PerformanceTable.interpolate, Interpolator.__call__) with every table value, the altitude and the mass symbolic over a reference model of scipy interpn; z3 decides that the result is the piecewise (bi)linear interpolation of exactly the selected phase table at (altitude*METERS_TO_FL, mass), depends only on altitude, mass and phase, that states outside the phase envelope are refused and none inside is, and that min/max mean the extreme table masses; the interpolant is exact at nodes and bounded by corner values (NRA). QF_FP (z3, cvc5 cross-check) over all integer flight levels 0..600 decides that a tabulated level expressed in metres with the library\'s own factors stays within the edge tolerance the implementation applies. build_performance_table (compiled from the current source) reproduces every symbolic PTF row exactly once.',
             'grid coordinates concrete; pandas assembly code (dense-grid refusal at load, subset, Interpolator.__init__) and PTF text parsing are not decided by this technique (declared in DESIGN.md); interpn replaced by a reference model validated against scipy each run',
